@@ -9,22 +9,22 @@ PINS = {
     'C01': ['dag_iter', 'status_queries', 'pipeline_glue', 'exec_container'],
     'C02': ['status_queries', 'pipeline_glue', 'exec_assignment', 'exec_container'],
     'C03': ['exec_pool', 'exec_executor', 'exec_assignment'],
-    'C04': ['exec_pool', 'exec_container'],
-    'C05': ['exec_container'],
-    'C06': ['sim_loop', 'status_queries', 'exec_executor'],
-    'C07': ['sim_loop', 'exec_executor', 'exec_container', 'param_defaults', 'sched_registry', 'workload_gen'],
-    'C08': ['sim_loop', 'dag_iter', 'exec_executor', 'param_defaults', 'sched_registry', 'workload_gen', 'sched_wrapper'],
+    'C04': ['exec_pool', 'exec_container', 'segment_class'],
+    'C05': ['exec_container', 'segment_class'],
+    'C06': ['sim_loop', 'status_queries', 'exec_executor', 'exec_pool', 'exec_container', 'exec_assignment'],
+    'C07': ['sim_loop', 'exec_executor', 'exec_container', 'param_defaults', 'sched_registry', 'workload_gen', 'exec_pool', 'exec_assignment'],
+    'C08': ['sim_loop', 'dag_iter', 'exec_executor', 'param_defaults', 'sched_registry', 'workload_gen', 'sched_wrapper', 'exec_pool', 'exec_container', 'exec_assignment'],
     'C09': ['exec_pool', 'exec_executor', 'exec_assignment', 'exec_container'],
     'C10': ['exec_pool', 'exec_container'],
     'C11': ['exec_pool', 'exec_container'],
-    'C12': ['status_queries', 'sched_wrapper', 'waiting_queue'],
-    'C13': ['trace_replay', 'csv_io', 'cli_run'],
-    'C14': ['trace_replay', 'csv_io'],
+    'C12': ['status_queries', 'sched_wrapper', 'waiting_queue', 'exec_pool', 'exec_container', 'exec_assignment'],
+    'C13': ['trace_replay', 'csv_io', 'cli_run', 'workload_base', 'sim_loop'],
+    'C14': ['trace_replay', 'csv_io', 'segment_class', 'workload_base'],
     'C15': ['workload_gen'],
-    'C16': ['status_queries', 'sched_wrapper', 'waiting_queue'],
-    'C17': ['status_queries', 'sched_wrapper'],
-    'C18': ['status_queries', 'sched_wrapper'],
-    'C19': ['sim_loop', 'sched_wrapper'],
+    'C16': ['status_queries', 'sched_wrapper', 'waiting_queue', 'exec_pool', 'exec_container', 'exec_assignment'],
+    'C17': ['status_queries', 'sched_wrapper', 'exec_pool', 'exec_container', 'exec_assignment'],
+    'C18': ['status_queries', 'sched_wrapper', 'exec_pool', 'exec_container', 'exec_assignment'],
+    'C19': ['sim_loop', 'sched_wrapper', 'exec_pool', 'exec_container', 'exec_assignment', 'to_dicts', 'to_dicts_pool', 'to_dicts_result'],
 }
 IMPORTS = 'From Eudoxia Require Import Model.ExecSrc.\n'
 
